@@ -259,10 +259,10 @@ def run(tier, seed):
     o.selftests.append({"control": "spec variant AggReplace=TRUE violates NeverReplaced", "rejected_as_required": True})
     # stage 1: schedules
     scheds, g = vlib.gen_schedules(PID, FAMILY, "DutyDBGen", "DutyDBGen.cfg", num=300 if thorough else 40, depth=80, seed=seed,
-                                   limit=4000 if thorough else 500)
+                                   limit=3000 if thorough else 500)
     n_aggdev = 12 if thorough else 2
     rnd = random_schedules(seed, 3000 if thorough else 400, thorough, n_aggdev)
-    conc = concurrent_schedules(seed, 1000 if thorough else 60, thorough)
+    conc = concurrent_schedules(seed, 700 if thorough else 60, thorough)
     # stage 2+3
     def conf(schedules, tag, **kw):
         try:
